@@ -61,7 +61,7 @@ FAIL = 100  # event FAIL+i makes flow f<i> fail (ops awaitf / whenf only)
 # when2: the top-level `or` of the formula is spelled as two cases `when g1 / send Hit()` `or when g2 / send Hit2()`
 OPS = ["match", "await", "when", "whenmix", "awaitf", "whenf", "when2", "whenfe"]
 # ops whose atoms are all flows and whose statement is one group: compared with the flow-level machine `GroupFlow` (T3)
-COREVM_SEQS = 8  # sequences per match case that are also run through CoreVM
+COREVM_SEQS = 6  # sequences per match case that are also run through CoreVM
 FAIL_OPS = ("awaitf", "whenf", "whenfe")
 FLOW_OPS = ("await", "when", "awaitf", "whenf", "whenfe")
 
@@ -310,7 +310,7 @@ def gen_cases(rng, tier):
                     al = sorted(set(atoms_of(g))) + [IRR]
                     cases.append({"kind": "e2e", "op": op, "g": g, "kinds": ["flow"] * 5, "minimal": False, "seqs": list(all_seqs(al, 3))})
     # group statements in context: re-entered in loops, in sequence, nested in `when` bodies, behind a sub-flow
-    n_ctx, n_cseq = (150, 10) if quick else (2000, 24)
+    n_ctx, n_cseq = (150, 10) if quick else (1200, 20)
     for i in range(n_ctx):
         n_atoms = rng.randint(2, 4)
         gf = lambda mx: g_formula(rng, n_atoms, rng.randint(1, mx), rng.randint(1, 3))  # noqa: E731
